@@ -230,11 +230,12 @@ theorem endsBackslash_iff (line : Line) : endsBackslash line = true ↔ ∃ pre,
     simp
 
 /-- the string branch: answer `True` ⇒ every line of the span but the last is followed by a string continuation line
-(tokenize) or ends in a backslash -/
+(tokenize) or ends in a backslash with no `#` from the walk column (the node's start on its first line, 0 later) on -/
 theorem strBranch_sound (lines : List Line) (l : Loc) (strLns : List Nat)
     (hs : ∀ x ∈ strLns, l.ln < x ∧ x ≤ l.endLn)
     (h : (strBranch lines l strLns).1.truthy = true) :
-    ∀ j, l.ln ≤ j → j < l.endLn → (j + 1 ∈ strLns ∨ endsBackslash (lines.getD j []) = true) := by
+    ∀ j, l.ln ≤ j → j < l.endLn →
+      (j + 1 ∈ strLns ∨ lineEndCont (lines.getD j []) (if j = l.ln then l.col else 0) = true) := by
   unfold strBranch at h
   simp only at h
   split at h
@@ -249,7 +250,10 @@ theorem strBranch_sound (lines : List Line) (l : Loc) (strLns : List Nat)
         obtain ⟨j', ⟨_, hp⟩, he⟩ := hm
         have : j' = j := by omega
         subst this
-        exact Or.inr hp
+        right
+        by_cases hj : j' = l.ln
+        · simpa [hj] using hp
+        · simpa [hj] using hp
     · intro x hx
       rw [mem_dedup, List.mem_append] at hx
       rcases hx with hm | hm
